@@ -74,7 +74,7 @@ ASSUMPTIONS = [
     'Non-integer `where` (True, 0.0, "0") must be rejected by TypeError or a TransformError; out-of-range integers by TransformReferenceError.',
 ]
 EXHAUSTIVE = {'quick': False, 'thorough': False}
-FLOORS = {'if-expression-with-sites-in-condition-and-arm': 30, 'two-sites-one-block': 50, 'nested-sites': 50, 'refusal-between-sites': 20,
+FLOORS = {'if-expression-with-candidates-in-condition-and-arm': 30, 'two-sites-one-block': 50, 'nested-sites': 50, 'refusal-between-sites': 20,
           'hist:>=2-edits-before-cursor-block': 10, 'hist:cursor-resolved': 100, 'hist:cursor-raised': 100,
           'hist:resolved-across>=2-steps': 50, 'hist:aimed-with-old-cursor-that-moved': 10,
           'hist:held-across-a-pass-that-reports-nothing': 50}
@@ -661,8 +661,13 @@ def check_single(res: Result, prog: Prog, desc, rnd=None):
     if extra_r:
         res.fail(f'{tag}refusals/refused-point-is-no-candidate', case, expected='a candidate', got=extra_r[0].format()[:200])
     order = [cand_ids[id(n)] for n in site_nodes if id(n) in cand_ids]
-    if (order != sorted(order) and cfg.s != 'rewrite') or len(set(order)) != len(order):
+    # a statement rule lists block by block ("outermost-first"); everything else lists in visit order
+    stmt_rule = cfg.s == 'rewrite' and cfg.kind == 'stmt'
+    if (order != sorted(order) and not stmt_rule) or len(set(order)) != len(order):
         res.fail(f'{tag}sites/not-in-visit-order', case, expected=sorted(order), got=order)
+    r_order = [cand_ids[id(n)] for n in ref_nodes if id(n) in cand_ids]
+    if r_order != sorted(r_order):
+        res.fail(f'{tag}refusals/not-in-visit-order', case, expected=sorted(r_order), got=r_order)
     if any(not isinstance(why, str) or not why for _, why in refs):
         res.fail(f'{tag}refusals/no-reason', case, expected='a reason', got=[w for _, w in refs][:3])
 
@@ -697,6 +702,12 @@ def check_single(res: Result, prog: Prog, desc, rnd=None):
                 if in_cond and in_arm:
                     res.cls('if-expression-with-sites-in-condition-and-arm')
                     break
+        for _, _, e in M.all_exprs(f.ast):
+            # the same with candidates (sites or refusals): independent of what the tree refuses inside an arm
+            if isinstance(e, A.IfExpr) and any(id(x) in cand_ids for x in M.expr_preorder(e.cond)) and (
+                    any(id(x) in cand_ids for x in M.expr_preorder(e.ift)) or any(id(x) in cand_ids for x in M.expr_preorder(e.iff))):
+                res.cls('if-expression-with-candidates-in-condition-and-arm')
+                break
         for _, _, e in M.all_exprs(f.ast):
             if isinstance(e, (A.Compare, A.And, A.Or, A.ListComp)) and sum(
                     1 for c in M.expr_children(e) if any(id(x) in sid for x in M.expr_preorder(c))) >= 2:
